@@ -30,7 +30,7 @@ RULE = ("in-memory mapsets: built from objects (1-3 charts sharing one tempo lis
 ASSUMPTIONS = [
     "header strings contain no ';' ':' '#' '//' and no surrounding whitespace (MSD has no escape in this writer)",
     "columns are within the chart type's key count; no two objects in one (row, column) on the main stream",
-    "float rendering is Python repr (round-trips); `round(beat, 2)` and `int(num * (den_max/den))` are modelled exactly",
+    "float rendering is Python repr (round-trips); `round(beat, 6)` and `int(num * (den_max/den))` are modelled exactly; the shift caused by the 6-decimal #BPMS beats (<= 5e-7 beat per tempo change times the change of beat length) is added to the 1/96-beat limit",
 ]
 TRUSTED_EXTRA = ["the exactness / 1/96-beat comparison of (S) is evaluated in Python with Fractions on the denotation returned by the driver"]
 
@@ -318,19 +318,20 @@ def on_grid(bpms, t):
 
 
 def tempo_round_slack(bpms, raw_beats, t):
-    """upper bound of the shift that `round(beat, 2)` of the #BPMS beats can cause at time t: every change before t
-    moves by at most |round2(beat) - beat| beats, which shifts everything after it by that many beats times the
+    """upper bound of the shift that `round(beat, 6)` of the #BPMS beats can cause at time t: every change before t
+    moves by at most |round6(beat) - beat| beats, which shifts everything after it by that many beats times the
     difference of the two beat lengths"""
     e = Fr(0)
     for i in range(1, len(bpms)):
         if bpms[i][0] <= t + Fr(1, 2 ** 20) and i < len(raw_beats):
-            d = abs(round2(raw_beats[i]) - raw_beats[i])
+            d = abs(round6(raw_beats[i]) - raw_beats[i])
             e += d * abs(Fr(60000) / bpms[i - 1][1] - Fr(60000) / bpms[i][1])
     return e
 
 
-def round2(q):
-    x = q * 100
+def round6(q):
+    """Python round(x, 6) on the exact value (half-even)"""
+    x = q * 10 ** 6
     f = x.numerator // x.denominator
     r = x - f
     if r < Fr(1, 2):
@@ -339,7 +340,7 @@ def round2(q):
         n = f + 1
     else:
         n = f if f % 2 == 0 else f + 1
-    return Fr(n, 100)
+    return Fr(n, 10 ** 6)
 
 
 def tempo_on_lines(bpms):
@@ -416,8 +417,8 @@ def run(case, drv):
                 if not close(F(v1), F(v2)):
                     agree = False
                 if F(b1) != F(b2):
-                    tie = (F(raw) * 100) % 1 == Fr(1, 2)
-                    if tie and abs(F(b1) - F(b2)) <= Fr(1, 100):
+                    tie = (F(raw) * 10 ** 6) % 1 == Fr(1, 2)
+                    if tie and abs(F(b1) - F(b2)) <= Fr(1, 10 ** 6):
                         boundary = True
                     else:
                         agree = False
@@ -480,8 +481,7 @@ def run(case, drv):
             raw_beats = [F(x) for x in ((model.get("ok") or {}).get("bpm_beats") or [])]
             order = sorted(range(len(content["charts"][0]["bpms"])), key=lambda i: F(content["charts"][0]["bpms"][i][0]))
             raw_sorted = [raw_beats[i] for i in order] if len(raw_beats) == len(order) else []
-            lossy = any(round2(b) != b for b in raw_sorted)
-            dsm3 = False
+            lossy = any(round6(b) != b for b in raw_sorted)
             for n, (cd, cc, dg) in enumerate(zip(den["charts"], content["charts"],
                                                  (model.get("ok") or {}).get("diag") or [None] * len(den["charts"]))):
                 if (cd["chart_type"], cd["description"], cd["difficulty"], cd["meter"]) != \
@@ -511,17 +511,11 @@ def run(case, drv):
                     tol = Fr(1, 2 ** 20) * max(1, abs(a[2])) / 1000 + Fr(1, 2 ** 20)
                     d = abs(a[2] - b[2])
                     maxdev = max(maxdev, float(d)) if exact else maxdev
+                    # the 6-decimal rendering of the #BPMS beats (round6_err: at most 5e-7 beat per change, exactly
+                    # 1/3e-6 for thirds of the 1/48 grid) is part of the tolerance, like the float rendering
                     slack = tempo_round_slack(bp, raw_sorted, max(a[2], b[2])) if lossy else 0
-                    if d > (tol if exact else lim) and lossy and d <= lim + slack + tol:
-                        # only explained by the 2-decimal rounding of the #BPMS beats: finding DSM3
+                    if d > (tol if exact else lim + slack):
                         ok = False
-                        dsm3 = True
-                        why.append("chart %d: %s col %d at %.6f ms written at %.6f ms: beyond 1/96 beat, within the shift caused by round(beat, 2) of #BPMS" %
-                                   (n, a[0], a[1], float(a[2]), float(b[2])))
-                        break
-                    if d > (tol if exact else lim):
-                        ok = False
-                        dsm3 = False
                         why.append("chart %d: %s col %d at %.6f ms written at %.6f ms (%s)" %
                                    (n, a[0], a[1], float(a[2]), float(b[2]), "exact regime" if exact else "limit 1/96 beat"))
                         break
@@ -530,15 +524,8 @@ def run(case, drv):
                         ble = Fr(60000) / local_bpm(bp, ea)
                         exact_e = lines and on_grid(bp, ea) and bool(dg and dg["exact_rows"])
                         slack_e = tempo_round_slack(bp, raw_sorted, max(ea, eb)) if lossy else 0
-                        if abs(ea - eb) > (tol if exact_e else ble / 96 + Fr(1, 2 ** 20)) and lossy and \
-                                abs(ea - eb) <= ble / 96 + slack_e + tol + Fr(1, 2 ** 20):
+                        if abs(ea - eb) > (tol if exact_e else ble / 96 + slack_e + Fr(1, 2 ** 20)):
                             ok = False
-                            dsm3 = True
-                            why.append("chart %d: %s col %d tail: beyond 1/96 beat, within the #BPMS rounding shift" % (n, a[0], a[1]))
-                            break
-                        if abs(ea - eb) > (tol if exact_e else ble / 96 + Fr(1, 2 ** 20)):
-                            ok = False
-                            dsm3 = False
                             why.append("chart %d: %s col %d tail at %.6f ms written at %.6f ms" % (n, a[0], a[1], float(ea), float(eb)))
                             break
             # reading the written text back gives these objects again
@@ -566,7 +553,5 @@ def run(case, drv):
         detail["why"] = why
         detail["text"] = text[:3000]
         detail["content"] = content
-        if why and all(("round(beat, 2)" in w or "#BPMS rounding" in w) for w in why):
-            kf = "DSM3"
     return dict(claim="write", ok=ok, agree=agree, dom=bool(dom), kf=kf, tags=tags, nontrivial=bool(nontrivial), maxdev=maxdev,
                 boundary=boundary, detail=detail)
